@@ -79,7 +79,11 @@ def gen_expr(rng, ids, excs, depth=0):
     if depth >= 2 or r < 0.6:
         if excs and rng.random() < 0.15:
             return ("with", rng.choice(ids), rng.choice(excs))
-        return ("id", rng.choice(ids))
+        i = rng.choice(ids)
+        if rng.random() < 0.1 and not i.endswith(("-only", "-or-later", "+")) and not i.startswith("LicenseRef-") \
+                and i in spdx_lists()["licenses"] and (i + "+") not in spdx_lists()["licenses"]:
+            i += "+"   # 'or any later version': served by the text of the plain identifier
+        return ("id", i)
     op = rng.choice(["and", "or"])
     subs = []
     for _ in range(rng.randint(2, 3)):
@@ -294,9 +298,13 @@ def gen_recipe(rng, n_files=None, defects=(), spicy=False, global_mode=None, git
         cand = [u for u in used_l if u not in skip and u not in BAD_IDS]
         if cand:
             skip.add(cand[0])
+    served = set()
     for u in used_l:
         if u in skip or u in BAD_IDS:
             continue
+        if strip_plus(u) in served or (strip_plus(u) in skip):
+            continue  # 'X' and 'X+' share one text
+        served.add(strip_plus(u))
         ext = rng.choice([".txt", ".txt", ".txt", ".md", ".rst"])
         sub = "sub/" if rng.random() < 0.1 else ""
         recipe["licenses"].append({"name": f"{sub}{strip_plus(u)}{ext}", "id": strip_plus(u)})
